@@ -50,6 +50,17 @@ def make_trees(r, tier, names, fgs):
             trees.append(("library", T.random_tree(r, size, names=pool)))
         else:
             trees.append(("rootform", T.random_tree(r, size, root_names=list(T.ROOT_ONLY))))
+    # size-extended residues (root sugar + Pen/Hex/Hep/Oct, optional DD/LD/... and deoxy prefixes) in every place of a tree
+    resized = [pre + b + sz + suf for b in ("Man", "Glc", "Gal", "Alt", "Ara", "Xyl", "Lyx", "Gul", "Tal", "Ido")
+               for sz in ("Hex", "Hep", "Oct") for pre in ("", "LD", "DD", "DL", "LL", "6d", "4d", "D-", "L-", "3d") for suf in ("", "7P", "f")
+               if not (sz == "Hex" and b not in ("Ara", "Xyl", "Lyx"))]
+    pick = resized if tier == "thorough" else r.sample(resized, 40)
+    for nm in pick:
+        T.RES[nm] = (1, (2, 3, 4), (), "resized")
+        an = r.choice("ab")
+        trees.append(("resized", T.Node("Glc", [(an, 1, r.choice([2, 3, 4, 6]), T.Node(nm))])))
+        trees.append(("resized", T.Node(nm, [(an, 1, r.choice([2, 3, 4]), T.Node("Gal"))])))
+        trees.append(("resized", T.Node("Kdo", [("a", 1, 5, T.Node(nm, [(r.choice("ab"), 1, 3, T.Node(r.choice(pick[:8])))]))])))
     # four substituents on a root and on an inner residue
     four = T.Node("Man", [("a", 1, 2, T.Node("Gal")), ("a", 1, 3, T.Node("Fuc")), ("b", 1, 4, T.Node("Xyl")), ("b", 1, 6, T.Node("GlcNAc"))])
     trees.append(("four", four))
@@ -120,7 +131,7 @@ def run(tier):
                     {"no_failing_input": True, "what_no_longer_checks": broken, "theorems": names_thm})
     report.assumptions = ["the per-residue reference is the library's own conversion of the residue alone (as the property states)",
                           "formula and ring count are the Coq functions Chem.formula / Chem.n_rings of the Coq reading (Smiles.sem) of the returned strings; validated against RDKit per instance by the O1 check of C02"]
-    extra = {"rule": "trees of 2-6 (quick) / 2-12 (thorough) residues over (a) the core vocabulary with free positions, (b) the complete library x ring form x D/L x random modification tokens, (c) alditol / anhydro roots, (d) N-glycosidic parents; evaluated only when glycan and every residue convert; distinct = distinct glycan strings",
+    extra = {"rule": "trees of 2-6 (quick) / 2-12 (thorough) residues over (a) the core vocabulary with free positions, (b) the complete library x ring form x D/L x random modification tokens, (c) alditol / anhydro roots, (d) N-glycosidic parents, (e) size-extended residues (LDManHep, 6dAltHep, AraHexf, ...7P) as child, parent and inner residue, (f) four substituents; evaluated only when glycan and every residue convert; distinct = distinct glycan strings",
              "skipped_no_molecule": skipped, "by_kind": kinds,
              "print_assumptions": res.assumptions.get(f"Props/{PROP}.v", "").strip().splitlines()[-4:]}
     return report.finish("proof", ob, dis, names_thm, trusted=C.TRUSTED, extra=extra)
